@@ -197,6 +197,8 @@ const Cfg cfgs[] = {
   // non-default backoff policies
   {"vmap<int,int>/backoff_exp2/ebr0", mkv<VM<int, IntVal, R1, xp::backoff<xenium::exponential_backoff<2>>>>},
   {"vmap<int,string>/consthash/backoff_single/hp", mkv<VM<int, StrVal, R2, xp::hash<ConstHash>, xp::backoff<xenium::single_backoff>>>},
+  // values of a <trivial key, non-trivial value> map live in nodes managed by a reclaimer of their own
+  {"vmap<int,string>/valrecl_hp/ebr0", mkv<VM<int, StrVal, R1, xp::value_reclaimer<R2>>>},
 };
 constexpr int NCFG = sizeof(cfgs) / sizeof(cfgs[0]);
 
